@@ -145,6 +145,89 @@ def simple_cases(col):
         col.add(None if ok else {"sig": f"native::interface::{name}", "what": "put/get / non-mutation / log_prob law fails", "input": {"interface": name}})
 
 
+def param_dependent_bijector_case(col):
+    """x ~ Uniform(low, high) re-parameterised with the default bijector Sigmoid(low, high): a position that also changes `high` must give the
+    state of direct assignment, eagerly and under jit, whatever the user's own model currently holds"""
+    import jax
+    import tensorflow_probability.substrates.jax.distributions as tfd_
+
+    def mk():
+        low, high = lsl.Var(np.float32(0.0), name="low"), lsl.Var(np.float32(2.0), name="high")
+        x = lsl.param(np.float32(0.5), lsl.Dist(tfd_.Uniform, low=low, high=high), name="x")
+        x.transform()
+        y = lsl.obs(np.array([0.3, 1.0, 1.9], np.float32), lsl.Dist(tfd_.Normal, loc=x, scale=1.0), name="y")
+        return lsl.GraphBuilder().add(y).build_model()
+
+    model = mk()
+    iface = gs.LieselInterface(model)
+    pos = {"high": jnp.float32(5.0), "x_transformed": jnp.float32(0.4)}
+    ref = mk()
+    ref.vars["high"].value = np.float32(5.0)
+    ref.vars["x_transformed"].value = np.float32(0.4)
+    ref.update()
+    want = {k: np.asarray(v.value, np.float64) for k, v in ref.state.items() if v.value is not None}
+    # ... and an ANALYTIC reference (a fresh model runs the same transformation code): x = low + (high - low) * sigmoid(t) at the position's high
+    x_true = 0.0 + (5.0 - 0.0) / (1.0 + np.exp(-0.4))
+    bad = None
+    if not np.isclose(float(want["x_value"]), x_true, rtol=1e-5):
+        bad = f"direct assignment on a fresh model: x = {float(want['x_value'])}, but Sigmoid(low=0, high=5).forward(0.4) = {x_true}"
+    for how, fn in (("eager", iface.update_state), ("jit", jax.jit(iface.update_state))):
+        if bad:
+            break
+        st = fn(pos, model.state)
+        if not np.isclose(float(st["x_value"].value), x_true, rtol=1e-5):
+            bad = f"{how}: x = {float(st['x_value'].value)} in the returned state, but Sigmoid(low=0, high=5).forward(0.4) = {x_true}"
+            break
+        for k, w in want.items():
+            g_ = np.asarray(st[k].value, np.float64)
+            if g_.shape != w.shape or not np.allclose(g_, w, rtol=1e-5, atol=1e-6):
+                bad = f"{how}: node {k} = {g_.tolist()}, direct assignment + full update gives {w.tolist()}"
+                break
+        if bad:
+            break
+    col.add(None if bad is None else {"sig": "native::interface::parameter_dependent_bijector", "what": bad, "input": {"position": {"high": 5.0, "x_transformed": 0.4}, "user_model_high": 2.0}})
+
+
+def dtype_case(col):
+    """a state entry of INTEGER dtype and a position that assigns a fractional value to it (by variable and by node name): the result is
+    what direct assignment gives - the value as given - eagerly and under jit"""
+    import jax
+    k = lsl.Var(jnp.array(2, dtype=jnp.int32), name="k")
+    y = lsl.obs(np.float32(0.4), lsl.Dist(tfd.Normal, loc=lsl.Calc(lambda v: v * 1.0, k), scale=1.0), name="y")
+    model = lsl.GraphBuilder().add(y).build_model()
+    iface = gs.LieselInterface(model)
+    bad = None
+    for key in ("k", "k_value"):
+        for how, fn in (("eager", iface.update_state), ("jit", jax.jit(iface.update_state))):
+            st = fn({key: jnp.float32(2.5)}, model.state)
+            got = float(iface.extract_position([key], st)[key])
+            lp = float(iface.log_prob(st))
+            want_lp = float(tfd.Normal(2.5, 1.0).log_prob(0.4))
+            if got != 2.5 or not np.isclose(lp, want_lp, rtol=1e-5):
+                bad = f"{how}, key {key!r}: extract_position gives {got} for the assigned 2.5; log_prob {lp} vs {want_lp}"
+                break
+        if bad:
+            break
+    col.add(None if bad is None else {"sig": "native::interface::dtype_of_state_entry", "what": bad, "input": {"state_entry_dtype": "int32", "position_value": 2.5}})
+
+
+def same_state_object_case(col):
+    """two update_state calls on ONE interface with the SAME state object and different key sets: the second result must not contain
+    anything of the first position (purity in the two arguments)"""
+    a = lsl.param(np.float32(30.0), lsl.Dist(tfd.Normal, loc=0.0, scale=1.0), name="a")
+    b = lsl.param(np.float32(0.0), lsl.Dist(tfd.Normal, loc=0.0, scale=1.0), name="b")
+    model = lsl.GraphBuilder().add(a, b).build_model()
+    iface = gs.LieselInterface(model)
+    S = model.state
+    s1 = iface.update_state({"a": jnp.float32(0.0)}, S)
+    s2 = iface.update_state({"b": jnp.float32(20.0)}, S)
+    got = (float(s2["a_value"].value), float(s2["b_value"].value), float(iface.log_prob(s2)))
+    want_lp = float(tfd.Normal(0.0, 1.0).log_prob(30.0) + tfd.Normal(0.0, 1.0).log_prob(20.0))
+    ok = got[0] == 30.0 and got[1] == 20.0 and np.isclose(got[2], want_lp, rtol=1e-5) and float(s1["a_value"].value) == 0.0
+    col.add(None if ok else {"sig": "native::interface::leftover_of_earlier_call", "what": f"update_state({{'b': 20}}, S) after update_state({{'a': 0}}, S) gives (a, b, log_prob) = {got}, "
+                             f"expected (30.0, 20.0, {want_lp})", "input": {"same_state_object": True, "key_sets": [["a"], ["b"]]}})
+
+
 def dataclass_derived_case(col):
     st = DCDerived(1.0, 2.0)
     st.offset, st.total = 0.5, 7.0  # values differing from the constructor-time ones
@@ -164,6 +247,18 @@ def bounded(tier, seed):
     rng = np.random.default_rng(seed)
     col = util.Collector()
     try:
+        dtype_case(col)
+    except Exception as e:
+        col.add({"sig": f"native::interface::exception::{type(e).__name__}", "what": str(e)[:200], "input": {"scenario": "integer state entry, fractional position"}})
+    try:
+        same_state_object_case(col)
+    except Exception as e:
+        col.add({"sig": f"native::interface::exception::{type(e).__name__}", "what": str(e)[:200], "input": {"scenario": "same state object, different key sets"}})
+    try:
+        param_dependent_bijector_case(col)
+    except Exception as e:
+        col.add({"sig": f"native::interface::exception::{type(e).__name__}", "what": str(e)[:200], "input": {"scenario": "parameter-dependent default bijector"}})
+    try:
         dataclass_derived_case(col)
     except Exception as e:
         col.add({"sig": "native::interface::dataclass_noninit_field", "what": f"{type(e).__name__}: {str(e)[:200]}", "input": {"interface": "dataclass", "state": "dataclass with field(init=False) fields"}})
@@ -172,9 +267,10 @@ def bounded(tier, seed):
             liesel_case(col, au, rng)
     simple_cases(col)
     try:
-        from rtc.c09 import legacy_transform_case
+        from rtc.c09 import legacy_transform_case, weak_var_with_dist_case
         sub = util.Collector()
         legacy_transform_case(sub, seed + 2)
+        weak_var_with_dist_case(sub, seed + 4)
         col.add({**sub.violations[0], "sig": "native::interface::direct_value_node_consumer"} if sub.violations else None)
     except Exception as e:
         col.add({"sig": f"native::interface::exception::{type(e).__name__}", "what": str(e)[:200], "input": {"scenario": "legacy transform, variable-name keys"}})
